@@ -29,4 +29,12 @@ def enumerateRange (n : Nat) : List (Nat × Nat) := (List.range n).map (fun i =>
 /-- `enumerate(l)` -/
 def enumerate {α : Type} (l : List α) : List (Nat × α) := l.zipIdx.map (fun p => (p.2, p.1))
 
+/-- `M[i, j] = v` on a matrix viewed as a function of two indices -/
+def update2 {β : Type} (f : Nat → Nat → β) (i j : Nat) (v : β) : Nat → Nat → β :=
+  fun a b => if a = i ∧ b = j then v else f a b
+
+/-- `M[r, :] = row` -/
+def setRow {β : Type} [Inhabited β] (f : Nat → Nat → β) (r : Nat) (row : List β) : Nat → Nat → β :=
+  fun a b => if a = r ∧ b < row.length then row.getD b default else f a b
+
 end OdeVerif.Py
